@@ -33,7 +33,7 @@ def referenced(e):
     return out
 
 
-def check_add(pre, new, post, accepted_means_stored=True):
+def check_add(pre, new, post, accepted_means_stored=True, ephemeral_stored_ok=False):
     """None if `post` is an allowed result of accepting `new` into `pre` (new.id not in pre)."""
     pre_ids = [r["id"] for r in pre]
     post_ids = [r["id"] for r in post]
@@ -55,7 +55,8 @@ def check_add(pre, new, post, accepted_means_stored=True):
                 x["id"][:6], x["kind"], x["pubkey"][:4], dval(x), x["created_at"], new["id"][:6], new["kind"], dval(new), new["created_at"])
     stored = new["id"] in post_ids
     if is_ephemeral(new):
-        if stored:
+        # LMDB never stores ephemeral kinds; the SQL backend keeps them until the next garbage-collection pass
+        if stored and not ephemeral_stored_ok:
             return "ephemeral event was stored"
     elif not stored and accepted_means_stored:
         superseded = a is not None and any(address(x) == a and x["created_at"] >= new["created_at"] for x in pre)
